@@ -463,6 +463,37 @@ def _spelling():
     return build()
 
 
+_EDIT_ALPHABET = "0123456789abcdefABCDEFxXbBoO_uUlL+- ."
+
+
+def _near_valid():
+    """Strings one to three edits away from a valid spelling (a character inserted, removed, replaced or doubled - a second prefix, a
+    digit of another base, an underscore at an end, a fourth suffix letter ...): judged by the reference recogniser, whatever it says."""
+
+    @st.composite
+    def build(draw):
+        out = []
+        for _ in range(draw(st.integers(4, 12))):
+            t = draw(_spelling())["text"].strip() if draw(st.integers(0, 3)) else draw(st.sampled_from(["0b1", "0B101", "0x1f", "0o17", "0", "1_0", "0b1u"]))
+            for _ in range(draw(st.integers(1, 3))):
+                kind = draw(st.sampled_from(["insert", "insert", "delete", "replace", "dup_prefix", "case"]))
+                pos = draw(st.integers(0, len(t)))
+                if kind == "insert":
+                    t = t[:pos] + draw(st.sampled_from(_EDIT_ALPHABET)) + t[pos:]
+                elif kind == "delete" and t:
+                    t = t[: pos % len(t)] + t[pos % len(t) + 1:]
+                elif kind == "replace" and t:
+                    t = t[: pos % len(t)] + draw(st.sampled_from(_EDIT_ALPHABET)) + t[pos % len(t) + 1:]
+                elif kind == "dup_prefix":
+                    t = t[:2] + draw(st.sampled_from(["0b", "0B", "0x", "0X", "0o", "0O", t[:2]])) + t[2:]
+                else:
+                    t = "".join(c.upper() if draw(st.booleans()) else c.lower() for c in t)
+            out.append(t)
+        return {"strings": out}
+
+    return build()
+
+
 def run_spelling(case, o: Oracle) -> None:
     misc, SPSDKError = _imports()
     v, text = case["value"], case["text"]
@@ -673,6 +704,7 @@ def parts(ctx):
         EnumPart("ints", _ints_count, lambda tier, i: {"lo": i * 1000, "hi": (i + 1) * 1000}, run_ints),
         EnumPart("bytes", _bytes_count, _bytes_item, run_bytes),
         HypPart("spelling", _spelling(), run_spelling, {"quick": 3000, "thorough": 150000}),
+        HypPart("near_valid", _near_valid(), run_strings, {"quick": 2000, "thorough": 100000}),
         HypPart("bytes_hyp", _bytes_strategy(), run_bytes_hyp, {"quick": 1500, "thorough": 60000}),
         HypPart("bcd", _bcd(), run_bcd, {"quick": 1000, "thorough": 40000}),
         HypPart("format", _format_case(), run_format, {"quick": 3000, "thorough": 120000}),
